@@ -13,7 +13,15 @@ Tie     : extracted facts (tools/extractors/e2e.py) + differential correspondenc
 Monitor : the property statement on the real outputs: call log of the instrumented callable (exactly one call with the
           sent arguments up to JSON normalisation), returned value (normalised return value, exact types), History
           versus the texts captured by a recording wrapper around the server's `_marshaled_dispatch`; for batches the
-          positional mapping and one call per job in job order.
+          positional mapping and one call per job in job order.  A violating scenario is reduced to the single call
+          (or single-job batch) that still violates before it is written as replay (`shrink`).
+Always  : besides the random scenarios every rig (quick tier included) runs the hand-written cases and `long_payloads()`:
+          arguments AND results of 1.5-9 kB (non-ASCII text of every UTF-8 width, unaligned; a long ASCII control; a
+          nested value) as single call (positional, keyword), notification and at every MultiCall position, so that the
+          reply spans several 1024-byte reads of the HTTP body on the real-socket rigs.  The interpreted model sees the
+          long payloads once per value (first rig); elsewhere they are judged by the monitor alone.
+Mixed   : out-of-domain batches mixing fates (unknown method, arguments that do not bind, ordinary jobs, notifications)
+          are run for correspondence with the model (`C01_batch_mixed`): per-position outcome and effect log.
 Assumed : the JSON codec laws `Backend.roundtrip` and `Backend.batch` — tested here against jsonrpclib.jdumps/jloads on
           every generated value and batch.
 """
@@ -32,7 +40,8 @@ import servercases as sc
 
 REQUIRED_THEOREMS = [
     "C01_request", "C01_single", "C01_single_jsonclass", "C01_kwargs", "C01_dotted", "C01_no_args", "C01_no_args_wire",
-    "C01_falsy", "C01_raises", "C01_notify", "C01_batch", "C01_batch_all_notifications", "C01_batch_position",
+    "C01_falsy", "C01_raises", "C01_notify", "C01_notify_jsonclass", "C01_notify_jsonclass_full",
+    "C01_batch", "C01_batch_all_notifications", "C01_batch_position", "C01_batch_mixed", "C01_batch_jsonclass",
     "C01_batch_jsonclass_partial", "C01_methodParams_shape",
     "C01_gen_methodSendsArgsElseKwargs", "C01_gen_requestReturnsResult", "C01_gen_historyOrder",
     "C01_gen_multicallFormat", "C01_gen_multicallVersion", "C01_gen_iteratorPositional", "C01_gen_proxyOwnAttrs",
@@ -276,9 +285,23 @@ def gen_odd(rng, callables, suj=False):
             return {"op": "odd", "kind": "call", "path": client_path(rng, c["name"]),
                     "args": [0] * (len(names) + 1), "kwargs": {}}
         return {"op": "odd", "kind": "notify", "path": ["nosuch"], "args": [], "kwargs": {}}
-    return {"op": "odd", "kind": "batch", "jobs": [
-        {"notify": False, "path": ["nosuch"], "args": [], "kwargs": {}},
-        {"notify": rng.random() < 0.5, "path": client_path(rng, c["name"]), "args": [], "kwargs": {}}]}
+    # a batch mixing fates (C01_batch_mixed): unknown method, arguments that do not bind, ordinary jobs, in any order
+    jobs = [{"notify": False, "path": ["nosuch"], "args": [], "kwargs": {}},
+            {"notify": rng.random() < 0.5, "path": client_path(rng, c["name"]), "args": [], "kwargs": {}}]
+    for c2 in callables:
+        names, nd, star, kw = c2["sig"]
+        if not star and rng.random() < 0.7:
+            jobs.append({"notify": rng.random() < 0.25, "path": client_path(rng, c2["name"]),
+                         "args": [0] * (len(names) + 1 + rng.randint(0, 2)), "kwargs": {}})
+        if not kw and rng.random() < 0.4:
+            jobs.append({"notify": False, "path": client_path(rng, c2["name"]), "args": [], "kwargs": {"no such keyword": 1}})
+        if rng.random() < 0.5:
+            a, k = gen_args(rng, c2["sig"], False)
+            jobs.append({"notify": rng.random() < 0.25, "path": client_path(rng, c2["name"]), "args": a, "kwargs": k})
+    if rng.random() < 0.3:
+        jobs.append({"notify": rng.random() < 0.5, "path": ["nosuch", ident(rng)], "args": [1], "kwargs": {}})
+    rng.shuffle(jobs)
+    return {"op": "odd", "kind": "batch", "jobs": jobs[:6]}
 
 
 def gen_scenario(rng, force=None):
@@ -563,20 +586,26 @@ def expected_return(c):
     return norm(c["beh"][1])
 
 
+def short(v, limit=240):
+    """repr for messages: long payloads abbreviated (the full input is in the replay file)."""
+    r = repr(v)
+    return r if len(r) <= limit else "%s…[%d chars]…%s" % (r[:limit // 2], len(r), r[-limit // 4:])
+
+
 def check_one_call(entry, c, args, kwargs, where):
     _, target, name, view, _ = entry
     if name != c["name"] or target != c["target"]:
         return "%s: %s %r was invoked instead of %r" % (where, target, name, c["name"])
     exp = expected_view(c, args, kwargs)
     if not view_eq(view, exp):
-        return "%s: %r invoked with %r, sent %r / %r" % (where, name, view, args, kwargs)
+        return "%s: %r invoked with %s, sent %s / %s" % (where, name, short(view), short(args), short(kwargs))
     return None
 
 
 def check_value(got, c, where):
     exp = expected_return(c)
     if not strict_eq(got, exp):
-        return "%s: returned %r, the callable returned %r (normalised %r)" % (where, got, c["beh"][1], exp)
+        return "%s: returned %s, the callable returned %s (normalised %s)" % (where, short(got), short(c["beh"][1]), short(exp))
     return None
 
 
@@ -591,13 +620,15 @@ def monitor(s, records, hist):
         if op["op"] == "odd":
             continue
         k, v = rec["outcome"]
-        # History: exactly the texts exchanged, in order
+        # History: exactly the texts exchanged, in order (reported after the outcome of the call itself)
         req_c = [d for d, _r in rec["captured"]]
         rep_c = [r for _d, r in rec["captured"]]
+        hist_msgs = []
         if len(rec["captured"]) != 1:
-            out.append(("%s: %d exchanges reached the server instead of 1" % (where, len(rec["captured"])), "exchanges"))
+            hist_msgs.append(("%s: %d exchanges reached the server instead of 1" % (where, len(rec["captured"])), "exchanges"))
         if rec["hist"][0] != req_c or rec["hist"][1] != rep_c or not all(isinstance(t, str) for t in rec["hist"][0] + rec["hist"][1]):
-            out.append(("%s: History recorded %r / %r, exchanged %r / %r" % (where, rec["hist"][0], rec["hist"][1], req_c, rep_c), "history"))
+            hist_msgs.append(("%s: History recorded %s / %s, exchanged %s / %s" % (
+                where, short(rec["hist"][0]), short(rec["hist"][1]), short(req_c), short(rep_c)), "history"))
         if op["op"] in ("call", "notify"):
             c = cs[op["callee"]]
             args, kwargs = send_args(op)
@@ -617,7 +648,7 @@ def monitor(s, records, hist):
                     out.append(("%s: notification response recorded as %r" % (where, rec["hist"][1]), "notify-history"))
             else:
                 if k != "ok":
-                    out.append(("%s: raised %s(%r) instead of returning %r" % (where, type(v).__name__, v.args, expected_return(c)), "call-raised"))
+                    out.append(("%s: raised %s(%s) instead of returning %s" % (where, type(v).__name__, short(v.args), short(expected_return(c))), "call-raised"))
                 else:
                     m = check_value(v, c, where)
                     if m:
@@ -635,10 +666,12 @@ def monitor(s, records, hist):
                         break
             answered = [j for j in jobs if not j["notify"]]
             if k != "ok" or v is None:
-                out.append(("%s: MultiCall gave %s %r" % (where, k, v), "batch-outcome"))
+                out.append(("%s: MultiCall gave %s %s" % (where, k, short(v)), "batch-outcome"))
+                out.extend(hist_msgs)
                 continue
             if rec["len"] != ("ok", len(answered)):
                 out.append(("%s: %r results for %d non-notification jobs" % (where, rec["len"], len(answered)), "batch-len"))
+                out.extend(hist_msgs)
                 continue
             for i, j in enumerate(answered):
                 c = cs[j["callee"]]
@@ -647,7 +680,7 @@ def monitor(s, records, hist):
                     if ki != "err" or type(vi).__name__ != "ProtocolError" or vi.args[0][0] != -32603:
                         out.append(("%s: result %d of a raising callable is %s %r" % (where, i, ki, vi), "batch-raise"))
                 elif ki != "ok":
-                    out.append(("%s: result %d raised %s%r" % (where, i, type(vi).__name__, vi.args), "batch-item-raised"))
+                    out.append(("%s: result %d raised %s%s" % (where, i, type(vi).__name__, short(vi.args)), "batch-item-raised"))
                 else:
                     m = check_value(vi, c, "%s result %d" % (where, i))
                     if m:
@@ -655,9 +688,10 @@ def monitor(s, records, hist):
             if all(cs[j["callee"]]["beh"][0] != "raise" for j in answered):
                 ka, va = rec["iter"]
                 if ka != "ok" or not strict_eq(va, [expected_return(cs[j["callee"]]) for j in answered]):
-                    out.append(("%s: iteration gave %s %r" % (where, ka, va), "batch-iter"))
+                    out.append(("%s: iteration gave %s %s" % (where, ka, short(va)), "batch-iter"))
+        out.extend(hist_msgs)
     if hist[0] != [d for d, _r in all_captured] or hist[1] != [r for _d, r in all_captured]:
-        out.append(("History %r / %r differs from the exchanged texts %r" % (hist[0], hist[1], all_captured), "history-total"))
+        out.append(("History %s / %s differs from the exchanged texts %s" % (short(hist[0]), short(hist[1]), short(all_captured)), "history-total"))
     return out
 
 
@@ -895,10 +929,19 @@ def run_group(ctx, rig_spec, scenarios, tmpdir, lines, pending):
                 with raw_backend(backend == "raw"):
                     records, hist = run_real(rig, s)
                 case = {"rig": list(rig_spec), "scenario": s}
-                for msg, key in monitor(s, records, hist):
+                found = monitor(s, records, hist)
+                if found:
+                    # the replay is the failing call alone whenever it fails on its own
+                    case, found = shrink(rig, rig_spec, s, found)
+                for msg, key in found:
                     ctx.violate(case, msg, key="%s:%s" % (key, transport if transport != "loop" else "loop"))
-                lines.append(model_line(s))
-                pending.append((s, rig_spec, project_real(s, records, hist)))
+                # the model is interpreted: the long payloads (about 100 kB a line) are run through it once per value,
+                # on the first rig; on the other rigs they are judged by the monitor alone
+                if not s.get("long") or (rig_spec == RIGS_QUICK[0] and s.get("long_model")):
+                    lines.append(model_line(s))
+                    pending.append((s, rig_spec, project_real(s, records, hist)))
+                else:
+                    ctx.extra["monitor_only_cases"] = ctx.extra.get("monitor_only_cases", 0) + 1
                 ctx.count(case_repr={"rig": label, "versions": [effective_client_version(s), s["sver"]],
                                      "ops": [op["op"] for op in s["ops"]]},
                           nontrivial_key=scenario_key(s, label), kind="scenario/" + label)
@@ -907,12 +950,42 @@ def run_group(ctx, rig_spec, scenarios, tmpdir, lines, pending):
                         ctx.hist["op/batch/%d" % len(op["jobs"])] += 1
                         if all(j["notify"] for j in op["jobs"]):
                             ctx.hist["op/batch/all-notifications"] += 1
+                    elif op["op"] == "odd":
+                        ctx.hist["op/odd/" + op["kind"]] += 1
+                        if op["kind"] == "batch" and len(op["jobs"]) > 2:
+                            ctx.hist["op/odd/batch-mixed-fates"] += 1
                     else:
                         ctx.hist["op/" + op["op"]] += 1
+                if s.get("long"):
+                    ctx.hist["long-payload/%s/%s" % (transport, s["long"])] += 1
                 ctx.hist["versions/c%s-s%s" % (effective_client_version(s), s["sver"])] += 1
                 ctx.hist["jsonclass/c%d-s%d" % (s["cuj"], s["suj"])] += 1
         finally:
             rig.close()
+
+
+def shrink(rig, rig_spec, s, found):
+    """Reduces a violating scenario to the single op (and, for a batch, the single job) that still violates."""
+    case = {"rig": list(rig_spec), "scenario": s}
+    m = re.match(r"op (\d+) ", found[0][0])
+    if not m or len(s["ops"]) == 1 and s["ops"][0]["op"] != "batch":
+        return case, found
+    op = s["ops"][int(m.group(1))]
+    candidates = []
+    if op["op"] == "batch":
+        candidates.extend(dict(s, ops=[dict(op, jobs=[j])]) for j in op["jobs"])
+    if len(s["ops"]) > 1:
+        candidates.append(dict(s, ops=[op]))
+    for cand in candidates:
+        try:
+            with raw_backend(rig_spec[2] == "raw"):
+                records, hist = run_real(rig, cand)
+            again = monitor(cand, records, hist)
+        except Exception:  # noqa: BLE001 - shrinking is best effort
+            continue
+        if again:
+            return {"rig": list(rig_spec), "scenario": cand}, again
+    return case, found
 
 
 def hand_written():
@@ -951,6 +1024,62 @@ def hand_written():
     return out
 
 
+def _mix(n):
+    """A deterministic text of `n` characters whose UTF-8 encodings are 1, 2, 3 and 4 bytes long, in an order that
+    puts every residue of a read boundary inside a multi-byte sequence."""
+    alphabet = ["a", "é", "€", "\U0001f600", "z", "日", "ü", "本", " ", "\U00010348", "ж", "語", "\\", "\""]
+    out, k = [], 0
+    for i in range(n):
+        k = (k * 7 + i * 3 + 1) % 101
+        out.append(alphabet[k % len(alphabet)])
+    return "".join(out)
+
+
+# Payloads longer than one read of the HTTP response (xmlrpc.client.Transport.parse_response reads 1024 bytes at a
+# time) and than a socket buffer line: non-ASCII text of every UTF-8 width, unaligned, plus a long ASCII control.
+LONG_VALUES = [
+    ("euro", "€" * 1500),
+    ("cjk", "日本語" * 600),
+    ("mix", _mix(3000)),
+    ("astral", "x" + "\U0001f600" * 700),
+    ("latin", "é" * 1501),
+    ("ascii", "plain ASCII " * 300),
+    ("nested", ["日本語" * 400, {"kéy": "ü" * 999, "€": ["€" * 400, 1.5, None]}]),
+]
+
+
+def long_payloads():
+    """
+    Calls whose argument AND result are long texts (single call in positional and keyword style, notification, and
+    every MultiCall position), always part of the quick tier on every rig: over a real socket the reply spans several
+    reads of the HTTP body, so any per-chunk treatment of the bytes (decoding, length accounting) shows.
+    """
+    out = []
+    small = {"name": "tiny", "target": "func", "sig": [[], 0, True, True], "beh": ["ret", "é"]}
+    for n, (label, v) in enumerate(LONG_VALUES):
+        other = LONG_VALUES[(n + 1) % len(LONG_VALUES)][1]
+        cs = [{"name": "echo_" + label, "target": "func", "sig": [[], 0, True, True], "beh": ["ret", v]},
+              {"name": "ns.other", "target": "attr", "sig": [["a"], 1, False, True], "beh": ["ret", other]},
+              small]
+
+        def job(callee, notify, args, kwargs):
+            return {"notify": notify, "callee": callee, "path": cs[callee]["name"].split("."), "args": args,
+                    "kwargs": kwargs, "tup": False}
+        ops = [
+            {"op": "call", "callee": 0, "path": ["echo_" + label], "args": [v], "kwargs": {}, "tup": False},
+            {"op": "call", "callee": 1, "path": ["ns", "other"], "args": [], "kwargs": {"a": other, "ключ": v}, "tup": False},
+            {"op": "notify", "callee": 0, "path": ["echo_" + label], "args": [v, v], "kwargs": {}, "tup": False},
+            {"op": "batch", "jobs": [job(2, False, [], {}), job(0, False, [v], {}), job(1, True, [other], {}),
+                                     job(1, False, [], {"a": v}), job(2, False, [0], {}), job(0, False, [], {"k": v})]},
+            {"op": "batch", "jobs": [job(0, False, [v], {})]},
+            {"op": "call", "callee": 2, "path": ["tiny"], "args": [], "kwargs": {}, "tup": False},
+        ]
+        for k, (cver, sver) in enumerate(((2.0, 2.0), (1.0, 1.0)) if n % 2 == 0 else ((1.0, 2.0), (2.0, 1.0))):
+            out.append({"cver": cver, "carg": None, "cuj": False, "sver": sver, "suj": False, "mver": cver, "muj": False,
+                        "callables": cs, "ops": ops, "long": label, "long_model": k == 0})
+    return out
+
+
 def run(ctx):
     ctx.rule = ("scenarios = (client version argument x client/server configuration version x use_jsonclass flags, a "
                 "registry of 1-4 instrumented callables (functions and instance attributes, identifier / dotted / Unicode "
@@ -974,8 +1103,9 @@ def run(ctx):
             else:
                 count = ctx.budget(80, 800)
             scenarios = [gen_scenario(rng) for _ in range(count)]
-            # every rig sees the hand-written cases; non-ASCII payloads over real sockets are what exposes codec changes
-            scenarios = hw + scenarios
+            # every rig sees the hand-written cases and the long payloads; non-ASCII payloads over real sockets (replies
+            # spanning several reads) are what exposes codec / framing changes
+            scenarios = hw + long_payloads() + scenarios
             run_group(ctx, rig_spec, scenarios, tmpdir, lines, pending)
         # the codec laws on everything that was generated
         values, batches = [], []
